@@ -184,15 +184,20 @@ def session_jobs(scale=1.0):
         # many concurrent small multi-xorb files per session, a shard cut every few records: races on the shared session state
         Job("sess-storm-t256-x1k", engine="session", profile="smallchunk", env=senv(256, 1024, 64, ib=512, shard_min=1024),
             workers=(3, 30), cases=c(40, 400), time_s=(45, 800), args={"storm": True, "max-files": 24, "max-file-bytes": 6000, "max-sessions": 2, "no-global": True}, **FULL),
-        # cached shards valid for 600 s (instead of three weeks); later sessions come through their own manager instance after a 2.1 s pause
-        Job("sess-validity600-t1024", engine="session", profile="smallchunk", env=dict(senv(1024, 16384, 8, ib=65536, shard_min=8192), HF_XET_MDB_SHARD_LOCAL_CACHE_EXPIRATION_SECS=600),
-            workers=(2, 8), cases=c(14, 120), time_s=(60, 800), args={"alias-bias": True, "alias-sleep-ms": 2100, "no-global": True, "max-sessions": 3}, **FULL),
         Job("sess-prod-x1m-c16", engine="session", profile="prodlike", env=senv(65536, 1048576, 16),
             workers=(3, 12), cases=c(6, 150), time_s=(45, 800), args={"max-file-bytes": 3000000, "max-files": 4, "max-sessions": 3}, **FULL),
         # full default limits (64 KiB chunks, 64 MiB / 8192-chunk xorbs): a few large files, thorough tier only
         Job("sess-prod-defaults-big", engine="session", profile="prodlike", env=senv(65536, 64 * 1024 * 1024, 8192),
             workers=(2, 2), cases=c(2, 3), time_s=(45, 900), args={"max-file-bytes": 140000000, "min-file-bytes": 60000000, "max-files": 2, "max-sessions": 2, "no-interleave": True},
             tiers=("thorough",), **FULL),
+    ]
+
+
+def validity_jobs():
+    """C11 only: cached shards valid for 600 s (instead of three weeks); later sessions come through their own manager instance after a 2.1 s pause."""
+    return [
+        Job("sess-validity600-t1024", engine="session", profile="smallchunk", env=dict(senv(1024, 16384, 8, ib=65536, shard_min=8192), HF_XET_MDB_SHARD_LOCAL_CACHE_EXPIRATION_SECS=600),
+            workers=(2, 8), cases=(14, 120), time_s=(60, 800), args={"alias-bias": True, "alias-sleep-ms": 2100, "no-global": True, "max-sessions": 3}, **FULL),
     ]
 
 
@@ -231,7 +236,7 @@ SESSION_ASSUMPTIONS = [
 SESSION_RULE = ("case = history of 1..4 upload sessions against one store (1..6 files per session built from recipes: fresh / const / periodic / low-entropy / "
                 "copies of earlier files at arbitrary offsets / self-copies / interleaved short dedup runs; sizes biased to 0, 1, chunk and xorb limits +-1, multi-xorb; "
                 "8 feed partitions; files cleaned sequentially or concurrently on 1/2/4/16-worker runtimes; seeded put / shard-upload delays; sessions with a fresh shard cache "
-                "exercise global dedup) under 8 configurations (one process each; one with a lowered chunk-index cap, one with cached shards valid for 600 s and later sessions started after a pause through their own manager instance); every session whose calls all returned Ok is judged by all monitors. ")
+                "exercise global dedup) under 7 configurations (one process each; one with a lowered chunk-index cap; C11 adds one with cached shards valid for 600 s and later sessions started after a pause through their own manager instance); every session whose calls all returned Ok is judged by all monitors. ")
 
 PROPS["C01"] = dict(
     level="exploration",
@@ -272,7 +277,7 @@ PROPS["C11"] = dict(
          "(violation only if fragmentation prevention is off or reported no withheld chunk); one configuration runs with fragmentation prevention disabled and re-upload-biased recipes; "
          "non-trivial/distinct as C01",
     assumptions=SESSION_ASSUMPTIONS + ["sessions that deliberately use a fresh shard cache (global-dedup variant) are exempt from clause (b)"],
-    jobs=session_jobs() + mgrconc_jobs(),
+    jobs=session_jobs() + validity_jobs() + mgrconc_jobs(),
     gates=dict(evaluations=(400, 20000), distinct=(150, 1000), counters={"new_xorbs_found_in_shards": (2000, 100000), "sessions_checked_for_reupload": (300, 15000),
                                                                                      "mgr_conc_records_conserved": (5000, 200000), "mgr_conc_shards_cut": (2000, 80000)}),
 )
